@@ -2,7 +2,7 @@
 PROP = "C12"
 LEVEL = "exploration"
 ENGINE = "pyvc+bounded"
-HARNESS_MODULES = []
+HARNESS_MODULES = ["contracts.c12_elementwise"]
 
 
 def bounded(tier, seed, rep):
